@@ -211,15 +211,18 @@ pub fn coincidences(opts: &Opts, out: &mut Out, prop: &str) -> usize {
     let configs: Vec<(usize, usize, usize)> = if opts.thorough { vec![(8, 1, 1), (8, 1, 3), (4, 2, 2), (64, 1, 2), (2, 1, 6), (16, 4, 1)] } else { vec![(8, 1, 1), (8, 1, 3), (4, 2, 2), (64, 1, 2)] };
     for (n, m, t) in configs {
         let max = if n == 64 { u64::MAX } else { (1u64 << n) - 1 };
-        let vps: Vec<(u64, Option<u64>)> = vec![(0, None), (0, Some(0)), (5 & max, Some(5 & max)), (5 & max, Some(4 & max)), (max, None), (max, Some(max)), (1, Some(1)), (max, Some(1))];
+        let vps: Vec<(u64, Option<u64>)> = vec![(0, None), (0, Some(0)), (5 & max, Some(5 & max)), (5 & max, Some(4 & max)), (max, None), (max, Some(max)), (1, Some(1)), (max, Some(1)), (1, None)];
         for (v, p) in vps {
-            for mask_kind in 0..7usize {
+            for mask_kind in 0..10usize {
                 for seed_kind in 0..6usize {
                     let seeded = m == 1 && seed_kind > 0;
                     if m > 1 && seed_kind > 0 {
                         continue;
                     }
-                    if mask_kind >= 4 && !seeded {
+                    if (4..7).contains(&mask_kind) && !seeded {
+                        continue;
+                    }
+                    if mask_kind == 9 && m == 1 {
                         continue;
                     }
                     let seed = match seed_kind {
@@ -238,10 +241,21 @@ pub fn coincidences(opts: &Opts, out: &mut Out, prop: &str) -> usize {
                         3 => vec![Scalar::random(&mut rng); t],
                         4 => vec![sd; t],
                         5 => (0..t).map(|k| if k == 0 { sd } else { Scalar::random(&mut rng) }).collect(),
-                        _ => (0..t).map(|k| if k == t - 1 { sd } else { Scalar::random(&mut rng) }).collect(),
+                        6 => (0..t).map(|k| if k == t - 1 { sd } else { Scalar::random(&mut rng) }).collect(),
+                        // unit vectors: with value 0 the commitment IS a blinding generator (with value 1 and mask 0, the value generator)
+                        7 => (0..t).map(|k| if k == 0 { Scalar::ONE } else { Scalar::ZERO }).collect(),
+                        8 => (0..t).map(|k| if k == t - 1 { Scalar::ONE } else { Scalar::ZERO }).collect(),
+                        _ => vec![], // the negation of the first opening's mask, filled in below
                     };
                     let mut inst = fmrun::random_inst(n, m, m, t, 4, false, &mut rng);
                     let j = m - 1;
+                    let mask = if mask_kind == 9 { inst.blindings[0].iter().map(|x| -x).collect() } else { mask };
+                    // the caller's transcript context: now and then empty, or the library's own domain separator
+                    match count % 7 {
+                        3 => inst.ctx = vec![],
+                        5 => inst.ctx = b"Bulletproofs+ Range Proof".to_vec(),
+                        _ => {},
+                    }
                     inst.values[j] = v;
                     inst.promises[j] = p;
                     inst.blindings[j] = mask;
